@@ -2770,14 +2770,25 @@ class Union(Generic, ValueSpecBase):
     if not self.type_resolved:
       return value
 
-    for c in self._candidates:
-      if c.value_type is not None and isinstance(value, c.value_type):
-        return c.apply(
-            value,
-            allow_partial=allow_partial,
-            child_transform=child_transform,
-            root_path=root_path
-        )
+    # NOTE: the candidate of the exact type goes first (a bool is also an int,
+    # but `Bool` is the candidate meant for it).
+    for exact in (True, False):
+      for c in self._candidates:
+        if c.value_type is None:
+          continue
+        if exact:
+          types = (c.value_type if isinstance(c.value_type, tuple)
+                   else (c.value_type,))
+          matched = type(value) in types
+        else:
+          matched = isinstance(value, c.value_type)
+        if matched:
+          return c.apply(
+              value,
+              allow_partial=allow_partial,
+              child_transform=child_transform,
+              root_path=root_path
+          )
 
     def _try_candidate(c, value) -> typing.Tuple[typing.Any, bool]:
       try:
